@@ -69,6 +69,10 @@ def observe_running(w: progs.World, label: str, problems: List[str], records: Li
         problems.append(f"{label}: InspectionWarning {ws[0]}")
 
 
+async def _ready(s):
+    return s
+
+
 class C02(PropCheck):
     pid = "C02"
     real_time_limit = 60.0
@@ -76,7 +80,7 @@ class C02(PropCheck):
             "generator, running coroutine and running async generator; 3 (quick) / 8 (thorough) choice lists per program; "
             "non-trivial = a probe fired inside __exit__/__aexit__ or with a manager active; distinct = (program, choices)")
     manifest = {
-        "text": "Lean (M-A, shared with C01): C02_first_cover (for a frame whose stack pointer is not saved the value stack is trimmed at the depth of the first table entry covering f_lasti, 0 if none — and that is exactly the depth the interpreter itself would pop the stack to if an exception were raised there, so every slot below it is live), C02_no_handler_empty, C02_innermost_level and C02_innermost_slot_in_range (the innermost block of the walk sits exactly at the trim depth: its slot is the last one of the trimmed stack). Tie: for every probe point the real inspect_frame's blocks and, when the interpreter frame's stacktop is -1, the length of the stack it read are compared with the model's walk and firstCover on the real table bytes. The exactness claim for compiler output is measured: probes inside the body and inside every __enter__/__exit__/__aenter__/__aexit__ of generated programs, all four frame kinds, compared with the event log.",
+        "text": "Lean (M-A, shared with C01): C02_first_cover (for a frame whose stack pointer is not saved the value stack is trimmed at the depth of the first table entry covering f_lasti, 0 if none — and that is exactly the depth the interpreter itself would pop the stack to if an exception were raised there, so every slot below it is live), C02_no_handler_empty, C02_innermost_level and C02_innermost_slot_in_range (the innermost block of the walk sits exactly at the trim depth: its slot is the last one of the trimmed stack). Tie: for every probe point the real inspect_frame's blocks and, when the interpreter frame's stacktop is -1, the length of the stack it read are compared with the model's walk and firstCover on the real table bytes. The exactness claim for compiler output is measured: probes inside the body and inside every __enter__/__exit__/__aenter__/__aexit__ of generated programs, all four frame kinds, compared with the event log. C02_exiting_obj (the manager of an exiting entry: for every parameter list of the exit method -- positional, keyword-only, star -- if the exit call binds at all the lookup finds the object it was called on), C02_exiting_obj_deleted (an exit method that unbound its own first name gives None, not another object), C02_F56_old_code_witness (args.args[0] of inspect.getargvalues is a keyword-only name when there is no named positional parameter: the value of `note`, or nothing). Tie: exit methods with every parameter-list shape (0/1/2/4 positional x keyword-only x star x `del self`), sync (probed while running) and async (suspended), vs the model.",
         "note": "Partial (as C01): no proof that CPython only emits code on which the chain equals the event-log truth, nor that the levels of outer with-handlers lie below the trim depth. `obj` of an exiting manager is read from the next frame's first argument: an __aexit__ that delegates to a foreign coroutine (F12, undecided) is outside the generated space. F1 (SEND inline cache) was repaired in /repo.",
     }
     assumptions = ["f_lasti of a running frame rests on the last code unit of the executing instruction (3.12)"]
@@ -97,9 +101,79 @@ class C02(PropCheck):
             if True:
                 for ch in ([], [1], [0, 1], [1, 0, 1], [0, 0, 1, 1], [1, 1, 0, 1, 0], [0, 1, 1, 0, 1, 1]):
                     out.append({"k": "prog", "kind": kind, "corpus": ci, "pseed": 0, "depth": 0, "choices": ch})
+        # every shape of the exit method's parameter list (where the manager is looked up when an exit is in progress)
+        for pos in ([], ["s"], ["s", "et"], ["s", "et", "ev", "tb"]):
+            for kwo in ([], ["note"]):
+                for va in (("rest",) if len(pos) < 4 else ("rest", None)):
+                    for deleted in ((False, True) if pos else (False,)):
+                        for is_async in (False, True):
+                            out.append({"k": "exitsig", "positional": pos, "kwonly": kwo, "varargs": va, "deleted": deleted, "async": is_async})
+        return out
+
+    def run_exitsig(self, case):
+        """The exit method has the given parameter list; the exit call is in progress (sync: probed from inside it while it runs;
+        async: suspended in it); the exiting entry's obj must be the manager, or None if the method has unbound its own first name."""
+        import stackscope
+
+        pos, kwo, va, deleted = case["positional"], case["kwonly"], case["varargs"], case["deleted"]
+        params = list(pos) + (["*" + va] if va else (["*"] if kwo else [])) + [f"{k}=KWD[{i}]" for i, k in enumerate(kwo)]
+        is_async = case["async"]
+        body = [f"    del {pos[0]}"] if (deleted and pos) else []
+        if is_async:
+            body += ["    await trap()"]
+        else:
+            body += ["    box['st'] = stackscope.extract(stackscope.StackSlice(), with_contexts=True)"]
+        src = (("async " if is_async else "") + f"def exit_fn({', '.join(params)}):\n" + "\n".join(body) + "\n    return False\n")
+        box: dict = {}
+        ns = {"KWD": [object() for _ in kwo], "box": box, "stackscope": stackscope, "trap": progs.trap if hasattr(progs, "trap") else None}
+        if ns["trap"] is None:
+            import types as _t
+
+            @_t.coroutine
+            def _trap():
+                yield
+            ns["trap"] = _trap
+        exec(src, ns)
+        if is_async:
+            cls = type("AM", (), {"__aenter__": (lambda s: _ready(s)), "__aexit__": ns["exit_fn"]})
+        else:
+            cls = type("M", (), {"__enter__": (lambda s: s), "__exit__": ns["exit_fn"]})
+        m = cls()
+        probs: List[str] = []
+        try:
+            if is_async:
+                async def user():
+                    async with m:
+                        pass
+                c = user()
+                c.send(None)
+                st = stackscope.extract(c)
+                fr = [f for f in st.frames if f.funcname == "user"]
+                c.close()
+            else:
+                def user():
+                    with m:
+                        pass
+                user()
+                fr = [f for f in box["st"].frames if f.funcname == "user"]
+        except TypeError as e:
+            self._probs = []
+            return "typeerror"
+        if not fr or not fr[0].contexts or not fr[0].contexts[-1].is_exiting:
+            probs.append(f"exit method ({', '.join(params)}): no exiting entry found on the with frame")
+            self._probs = probs
+            return "?"
+        obj = fr[0].contexts[-1].obj
+        out = "self" if obj is m else "none" if obj is None else "other"
+        if out == "other" or (out == "none" and not (deleted and pos)):
+            probs.append(f"exit method ({', '.join(params)}){' after del ' + pos[0] if deleted and pos else ''}: the exiting entry's obj is "
+                         f"{obj!r}, the exit in progress was called on {m!r}")
+        self._probs = probs
         return out
 
     def run_real(self, case):
+        if case["k"] == "exitsig":
+            return self.run_exitsig(case)
         src = progs.CORPUS[case["corpus"]][1] if "corpus" in case else progs.gen_program(random.Random(case["pseed"]), case["kind"], case["depth"], probes=True)
         case["_src"] = src
         probs: List[str] = []
@@ -129,11 +203,16 @@ class C02(PropCheck):
         return json.dumps([[r["label"], r["lasti"], r["got"]] for r in recs])
 
     def model_line(self, case):
+        if case["k"] == "exitsig":
+            return json.dumps({"p": "C01", "k": "exitself", "positional": case["positional"], "kwonly": case["kwonly"],
+                               **({"varargs": case["varargs"]} if case["varargs"] else {}), "deleted": bool(case["deleted"] and case["positional"])})
         if "_facts" not in case:
             return None
         return progs.table_model_line(case["_facts"], [(l, r) for l, r, _, _ in case["_points"]])
 
     def canon(self, case, real):
+        if case["k"] == "exitsig":
+            return real if real in ("self", "none", "typeerror") else "other:?"
         if "_facts" not in case:
             return real
         return progs.table_expected(case["_facts"], case["_points"])
@@ -143,6 +222,8 @@ class C02(PropCheck):
         return "; ".join(probs[:2])[:900] if probs else None
 
     def nontrivial_key(self, case, real):
+        if case["k"] == "exitsig":
+            return json.dumps(case, sort_keys=True)
         if case.get("_in_exit", 0) > 0 or (isinstance(real, str) and "true" in real):
             return json.dumps({k: v for k, v in case.items() if not k.startswith("_")}, sort_keys=True)
         return None
@@ -151,7 +232,10 @@ class C02(PropCheck):
         d = {"runs": len(cases), "probes": 0, "probes_in_exit": 0, "by_kind": {},
              "tables_compared": sum("_facts" in c for c in cases), "trim_depths_compared": sum(sum(1 for p in c.get("_points", []) if p[1]) for c in cases),
              "walks_compared": sum(len(c.get("_points", [])) for c in cases)}
+        d["exit_signatures"] = sum(c["k"] == "exitsig" for c in cases)
         for c in cases:
+            if c["k"] == "exitsig":
+                continue
             d["probes"] += c.get("_obs", 0)
             d["probes_in_exit"] += c.get("_in_exit", 0)
             d["by_kind"][c["kind"]] = d["by_kind"].get(c["kind"], 0) + 1
